@@ -150,6 +150,7 @@ func init() {
 type seg struct {
 	msg  util.Message
 	skip int
+	pad8 bool // the child is followed by zero padding to a multiple of 8 bytes (hello elements)
 }
 
 func isNil(m any) bool {
@@ -184,7 +185,9 @@ func children(v util.Message) (segs []seg, pad8 bool, container bool) {
 	case *common.Hello:
 		skip(8)
 		for _, e := range x.Elements {
-			add(e)
+			if !isNil(e) {
+				segs = append(segs, seg{msg: e, pad8: true})
+			}
 		}
 	case *of.FlowMod:
 		skip(48)
@@ -432,6 +435,16 @@ func c06Check(c *fw.Ctx, v util.Message, depth int) {
 			return
 		}
 		off += len(ce)
+		if s.pad8 {
+			for len(ce)%8 != 0 && off < len(enc) {
+				if enc[off] != 0 {
+					c.Violation(tn, "embed", "element-padding", fmt.Sprintf("byte %#x at offset %d after a %d-byte child: want zero padding to a multiple of 8", enc[off], off, len(ce)))
+					return
+				}
+				off++
+				ce = append(ce, 0)
+			}
+		}
 	}
 	rest := enc[min(off, len(enc)):]
 	if off > len(enc) {
